@@ -702,6 +702,12 @@ def ring_ops(ctx, facts):
                             if not all(guard_holds(f, env) for tgt, f in eg if flow.dominates(dom, tgt, bb) and ("RangeInclusive" in str(f) or any(str(k) in str(f) for k in nodes))):
                                 continue
                             x = flow.strip_casts(se)
+                            # a slice that went through a tuple binding: `let (head, tail) = (&data[a..], &data[..=b])`
+                            for _ in range(3):
+                                if x[0] == "proj" and isinstance(x[1], tuple) and x[1][0] == "agg" and x[1][1] == "tuple" and len(x) == 3 and isinstance(x[2], int) and x[2] < len(x[1][2]):
+                                    x = flow.strip_casts(x[1][2][x[2]])
+                                else:
+                                    break
                             if not (x[0] == "call" and re.search(r"Index(Mut)?::index(_mut)?$", x[1]) and flow.strip_casts(x[2][0]) == ("arg", 1, "data")):
                                 raise NoEval("a slice appended by take() is not a slice of self.data")
                             r = flow.strip_casts(x[2][1])
